@@ -587,6 +587,21 @@ func (s *Module) AddMPTNodes(nodes [][]byte) error {
 		return fmt.Errorf("MPT nodes were not requested: current state sync stage is %d", s.syncStage)
 	}
 
+	// A restored node, its reference counter and the storage item of a leaf are
+	// separate writes. They are collected in a layer of their own and handed
+	// over at once: the periodic flush of the node must not fall in between, a
+	// node found in the DB after a crash is taken for a completely restored one.
+	var (
+		store = s.dao.Store
+		cache = storage.NewPrivateMemCachedStore(store)
+	)
+	s.billet.Store = cache
+	defer func() {
+		if s.billet != nil {
+			s.billet.Store = store
+		}
+	}()
+
 	// A bad node stops processing of the batch, but the nodes before it are
 	// already restored, so the pool must be checked for completeness anyway
 	// (nothing will be requested from peers if it's empty).
@@ -614,6 +629,9 @@ func (s *Module) AddMPTNodes(nodes [][]byte) error {
 		if resErr != nil {
 			break
 		}
+	}
+	if _, err := cache.Persist(); err != nil {
+		return fmt.Errorf("failed to store a batch of MPT nodes: %w", err)
 	}
 	if s.mptpool.Count() == 0 {
 		_, err := s.dao.Store.PersistSync()
@@ -660,7 +678,17 @@ func (s *Module) AddContractStorageItems(kvs []storage.KeyValue) error {
 	for _, kv := range kvs {
 		batch[string(append([]byte{byte(prefix)}, kv.Key...))] = kv.Value
 	}
-	_ = s.dao.Store.PutChangeSet(nil, batch)
+	// Items, trie nodes and the checkpoint describing them go to the DB
+	// together: the periodic flush of the node must not separate them, the
+	// checkpoint is what the process is resumed from after a restart.
+	cache := s.dao.GetPrivate()
+	s.localTrie.Store = cache.Store
+	defer func() {
+		if s.localTrie != nil {
+			s.localTrie.Store = s.dao.Store
+		}
+	}()
+	_ = cache.Store.PutChangeSet(nil, batch)
 	mptBatch := mpt.MapToMPTBatch(batch)
 	if _, err := s.localTrie.PutBatch(mptBatch); err != nil {
 		return fmt.Errorf("failed to apply MPT batch at %d: %w", s.syncPoint, err)
@@ -678,7 +706,10 @@ func (s *Module) AddContractStorageItems(kvs []storage.KeyValue) error {
 		LastStoredKey:    kvs[len(kvs)-1].Key,
 		Witness:          w,
 	}
-	s.dao.PutStateSyncCheckpoint(ckpt)
+	cache.PutStateSyncCheckpoint(ckpt)
+	if _, err := cache.Persist(); err != nil {
+		return fmt.Errorf("failed to store checkpoint metadata: %w", err)
+	}
 	if _, err := s.dao.Store.PersistSync(); err != nil {
 		return fmt.Errorf("failed to persist checkpoint metadata: %w", err)
 	}
